@@ -188,6 +188,27 @@ def run(tier, seed):
             if mod.tagdefault == "AUTOMATIC":
                 for k_, c_ in enumerate(shadow.comps):
                     c_.autotag = k_
+        ios.alias = {}
+
+        def newid():
+            used = [a for a, _ in ios.rows]
+            if ios.idkind == "oid":
+                return next(o for o in ((1, 3, 6, 302, k_) for k_ in range(50)) if o not in used)
+            small = ios.idkind == "cint" or "-fwide-types" in OPTSETS[i % len(OPTSETS)]
+            return next(x for x in ([6, 78, 131, 202, 251, 9, 10] if small else [6, 78, -10, 70001, 9, 10]) if x not in used)
+        if r2.random() < 0.4:
+            # built-in types given in place: { INTEGER IDENTIFIED BY 6 }; a named alias serves the stand-alone runs
+            for kind in r2.sample(["INTEGER", "BOOLEAN", "IA5String", "UTF8String", "REAL"], r2.choice([1, 2])):
+                ios.rows.append((newid(), kind))
+                for nm in (kind, "BI" + kind):
+                    t_ = Type(kind)
+                    gen._set_module(t_, mod)
+                    mod.add(nm, t_)
+                ios.alias[kind] = "BI" + kind
+                rwtext += "BI%s ::= %s\n\n" % (kind, kind)
+        if r2.random() < 0.4:
+            # a second object with the type of an earlier one: the rows share the member of the generated union
+            ios.rows.append((newid(), r2.choice(ios.rows)[1]))
         text = text.rstrip()[:-3] + rwtext + ios_text(ios, mod) + "\nEND\n"
         d = os.path.join(root, "m%d" % i)
         os.makedirs(d, exist_ok=True)
@@ -216,6 +237,8 @@ def run(tier, seed):
             else:
                 chk.inconcl("module not built (%s)" % err[0])
                 chk.count("unbuilt_%s_%s" % (err[0], idk))
+                if os.environ.get("VERIF_SHOWBUILD"):
+                    print("UNBUILT", err[0], el[-1500:], "\n", text[text.find("RW ::=") if "RW ::=" in text else text.find("Frame ::="):])
             continue
         enc = der.Encoder(mod)
         frames = {tn: shadow_frame(ios, mod, tn) for idv, tn in ios.rows}
@@ -255,9 +278,9 @@ def run(tier, seed):
                                             "enc s=0 syn=CXER reg=3", "dec s=1 t=Frame syn=CXER inreg=3", "enc s=1 syn=DER", "free s=1",
                                             "chk s=0 eb=64", "prt s=0", "free s=0",
                                             # the row type on its own: what this library makes of the value outside an open type
-                                            "dec s=2 t=%s syn=BER in=%s" % (tn, drv.hx(inner0)), "enc s=2 syn=UPER", "enc s=2 syn=UPER reg=4 quiet=1",
-                                            "dec s=3 t=%s syn=UPER inreg=4" % tn, "enc s=3 syn=DER", "free s=3",
-                                            "enc s=2 syn=CXER reg=5 quiet=1", "dec s=3 t=%s syn=CXER inreg=5" % tn, "enc s=3 syn=DER", "free s=3", "free s=2"]))
+                                            "dec s=2 t=%s syn=BER in=%s" % (ios.alias.get(tn, tn), drv.hx(inner0)), "enc s=2 syn=UPER", "enc s=2 syn=UPER reg=4 quiet=1",
+                                            "dec s=3 t=%s syn=UPER inreg=4" % ios.alias.get(tn, tn), "enc s=3 syn=DER", "free s=3",
+                                            "enc s=2 syn=CXER reg=5 quiet=1", "dec s=3 t=%s syn=CXER inreg=5" % ios.alias.get(tn, tn), "enc s=3 syn=DER", "free s=3", "free s=2"]))
                 meta[cid] = ("match", tn, idv, fv, ref, (f, inner0), None)
                 # mismatches: identifier of this row, bytes of another row's value
                 for idj, tj in ios.rows:
@@ -272,7 +295,7 @@ def run(tier, seed):
                         continue
                     cid += 1
                     # does row i's own decoder accept the bytes of row j ?  (asked of the same library, standalone)
-                    cases.append(drv.Case(cid, ["dec s=1 t=%s syn=BER in=%s" % (tn, drv.hx(inner)), "free s=1",
+                    cases.append(drv.Case(cid, ["dec s=1 t=%s syn=BER in=%s" % (ios.alias.get(tn, tn), drv.hx(inner)), "free s=1",
                                                 "dec s=0 t=Frame syn=BER in=%s" % drv.hx(mref), "enc s=0 syn=DER quiet=1", "prt s=0", "free s=0"]))
                     meta[cid] = ("mismatch-BER", tn, idv, fj, mref, None, tj)
                     try:
